@@ -52,10 +52,10 @@ type CopyParams struct {
 	MountList   int            `json:"mount_list,omitempty"`  // which candidate list MountFrom returns (see mountLists)
 	// C01: the context ends before the call (Op "call") or at the named operation; a call that
 	// still reports success is judged like any other
-	CancelAt *FaultSpec `json:"cancel_at,omitempty"`
-	Raced       []int          `json:"raced,omitempty"`       // C04: nodes another client stores in the destination right before this copy's own Push
-	MountPre    []int          `json:"mount_pre,omitempty"`   // blobs the sibling repository of the destination registry holds
-	NetFaults   []NetFaultAt   `json:"net_faults,omitempty"`  // remote stores: failing HTTP exchanges (C02)
+	CancelAt  *FaultSpec   `json:"cancel_at,omitempty"`
+	Raced     []int        `json:"raced,omitempty"`      // C04: nodes another client stores in the destination right before this copy's own Push
+	MountPre  []int        `json:"mount_pre,omitempty"`  // blobs the sibling repository of the destination registry holds
+	NetFaults []NetFaultAt `json:"net_faults,omitempty"` // remote stores: failing HTTP exchanges (C02)
 }
 
 // NetFaultAt places a failing HTTP exchange at one of the simulated registries.
